@@ -472,3 +472,123 @@ Section Coop.
       rewrite E2. reflexivity.
   Qed.
 End Coop.
+
+(* ================= per case (the shape used by the property files) ================= *)
+Lemma expected_eq c :
+  expected c = (exp_list (n_oack (t_neg c)) (fst (number_blocks (t_wrap c) 0%N (spec_blocks c))),
+                snd (number_blocks (t_wrap c) 0%N (spec_blocks c))).
+Proof.
+  unfold expected. destruct (number_blocks (t_wrap c) 0%N (spec_blocks c)) as [l o]. cbn [fst snd].
+  destruct (n_oack (t_neg c)); reflexivity.
+Qed.
+
+Lemma valid_tm_pos c : valid c -> 0 < tmo (t_cfg c).
+Proof.
+  intros (Hcur & Hnv & Hna & Hb & Ht).
+  destruct (negotiate_pos (t_limits c) (t_netascii c) (t_kind c) (t_options c) Hb Ht) as [_ Htm].
+  unfold t_cfg, t_neg; cbn [tmo]. rewrite Hnv. unfold TICKS. lia.
+Qed.
+Lemma valid_cur c : valid c -> v (t_cfg c) = current.
+Proof. intros (Hcur & _). exact Hcur. Qed.
+
+Lemma run_transfer_case_eq c : run_transfer_case c = snd (run_r c).
+Proof. reflexivity. Qed.
+
+Lemma concat_spec_blocks c : valid c -> concat (spec_blocks c) = wire_content c.
+Proof. intros _. unfold spec_blocks, wire_content. apply split_blocks_concat. Qed.
+
+(* (1) for EVERY script *)
+Theorem case_safety c : valid c ->
+  prefix (new_sends (run_transfer_case c)) (fst (expected c)) /\
+  retransmissions_identical (run_transfer_case c) /\
+  lockstep (run_transfer_case c).
+Proof.
+  intros Hv. rewrite expected_eq. cbn [fst]. unfold run_transfer_case. rewrite (t_blocks_spec c Hv).
+  destruct (transfer_safety (t_cfg c) (n_oack (t_neg c)) (spec_blocks c) (t_events c) (valid_cur c Hv))
+    as (A & B & C & _). auto.
+Qed.
+
+Theorem case_complete c : valid c -> ending_of c = inr EDone ->
+  new_sends (run_transfer_case c) = fst (expected c) /\ snd (expected c) = false /\
+  delivered (run_transfer_case c) = wire_content c.
+Proof.
+  intros Hv He. unfold ending_of, run_r in He. rewrite expected_eq. cbn [fst snd].
+  unfold delivered, run_transfer_case. rewrite (t_blocks_spec c Hv) in *.
+  destruct (transfer_safety (t_cfg c) (n_oack (t_neg c)) (spec_blocks c) (t_events c) (valid_cur c Hv))
+    as (_ & _ & _ & D). destruct (D EDone He) as [D1 D2]. cbn [wrap t_cfg] in D1, D2.
+  split; [exact D1|]. split; [exact D2|]. rewrite D1, payloads_exp_list, (payloads_numbered _ _ _ D2).
+  now apply concat_spec_blocks.
+Qed.
+
+(* (2) the cooperative client *)
+Theorem case_delivers c plans : valid c ->
+  length plans = length (fst (expected c)) ->
+  Forall (plan_ok (tmo (t_cfg c)) (t_retries c)) (combine (fst (expected c)) plans) ->
+  t_events c = coop_script c plans ->
+  ending_of c = inr (if snd (expected c) then EOverflow else EDone) /\
+  new_sends (run_transfer_case c) = fst (expected c) /\
+  (snd (expected c) = false -> delivered (run_transfer_case c) = wire_content c).
+Proof.
+  intros Hv Hl F Ev. unfold coop_script in Ev. rewrite expected_eq in *. cbn [fst snd] in *.
+  assert (E : ending_of c = inr (if snd (number_blocks (t_wrap c) 0%N (spec_blocks c)) then EOverflow else EDone)).
+  { unfold ending_of, run_r. rewrite (t_blocks_spec c Hv), Ev.
+    apply (transfer_completes (t_cfg c) (valid_cur c Hv) (valid_tm_pos c Hv)); assumption. }
+  split; [exact E|].
+  pose proof (transfer_safety (t_cfg c) (n_oack (t_neg c)) (spec_blocks c) (t_events c) (valid_cur c Hv))
+    as (_ & _ & _ & D).
+  unfold ending_of, run_r in E. rewrite (t_blocks_spec c Hv) in E.
+  destruct (D _ E) as [D1 D2]. cbn [wrap t_cfg] in D1, D2.
+  unfold run_transfer_case. rewrite (t_blocks_spec c Hv). split; [exact D1|].
+  intros Ho. unfold delivered. rewrite D1, payloads_exp_list, (payloads_numbered _ _ _ Ho).
+  now apply concat_spec_blocks.
+Qed.
+
+(* the overflow ending occurs exactly without a wrap value and with more than 65535 blocks *)
+Theorem case_overflow_iff c : wrap_ok c ->
+  snd (expected c) = match t_wrap c with
+                     | Some _ => false
+                     | None => (65535 <? N.of_nat (length (spec_blocks c)))%N
+                     end.
+Proof. intros Hw. rewrite expected_eq. cbn [snd]. now apply overflow_iff. Qed.
+
+Lemma spec_blocks_nonempty c : spec_blocks c <> [].
+Proof.
+  unfold spec_blocks, split_blocks. destruct (length _); cbn [split_go]; [discriminate|].
+  destruct (shorter _ _); discriminate.
+Qed.
+
+Lemma expected_nonempty c : exists p0 rest, fst (expected c) = p0 :: rest.
+Proof.
+  rewrite expected_eq. cbn [fst]. destruct (n_oack (t_neg c)) as [|o1 o2]; cbn [exp_list]; [|eauto].
+  pose proof (spec_blocks_nonempty c). destruct (spec_blocks c) as [|b r]; [congruence|].
+  cbn [number_blocks]. change (next_block (t_wrap c) 0%N) with (Some 1%N). cbv iota beta.
+  destruct (number_blocks (t_wrap c) 1%N r). cbn [fst]. eauto.
+Qed.
+
+(* (4) silence *)
+Theorem case_gives_up c p0 rest : valid c -> fst (expected c) = p0 :: rest ->
+  quiet_before (Z.of_nat (S (t_retries c)) * tmo (t_cfg c)) (t_events c) ->
+  ending_of c = inl OTimeout /\
+  client_sends (run_transfer_case c) =
+    map (fun j => (Z.of_nat j * tmo (t_cfg c), p0)) (seq 0 (S (t_retries c))) /\
+  exists l0, run_transfer_case c = l0 ++ [TCloseFile; TCloseSock].
+Proof.
+  intros Hv Hp Q. rewrite expected_eq in Hp. cbn [fst] in Hp.
+  unfold ending_of, run_r, run_transfer_case. rewrite (t_blocks_spec c Hv).
+  exact (gives_up (t_cfg c) (valid_cur c Hv) (valid_tm_pos c Hv) _ _ _ p0 rest Hp Q).
+Qed.
+
+(* readings of the two trace predicates at a position of the trace *)
+Lemma lockstep_at l l1 e l2 : lockstep l -> l = l1 ++ e :: l2 ->
+  forall p q, client_pkt e = Some p -> is_timeout (last_ev None l1) = false ->
+  last_pkt None l1 = Some q -> acks (last_ev None l1) q.
+Proof.
+  intros H -> p q Hp Ht Hq. unfold lockstep in H. apply lockstep_app in H. destruct H as [_ H].
+  cbn [lockstep_from] in H. destruct H as [H _]. now rewrite Hp, Ht, Hq in H.
+Qed.
+Lemma retrans_at l l1 t a p l2 : retransmissions_identical l -> l = l1 ++ TSend t a p :: l2 ->
+  is_timeout (last_ev None l1) = true -> a = client /\ last_pkt None l1 = Some p.
+Proof.
+  intros H -> Ht. unfold retransmissions_identical in H. apply retrans_app in H. destruct H as [_ H].
+  cbn [retrans_from] in H. destruct H as [H _]. now rewrite Ht in H.
+Qed.
